@@ -80,7 +80,24 @@ Definition run_cors (c impl : sexp) : sexp :=
   let cfg := sx_cors (sx_nth 1 c) in
   let t := sx_table (sx_nth 2 c) in
   let reqs := map sx_request (sx_list (sx_nth 3 c)) in
-  let res := map (fun p => run_cors_one O cfg t (fst p) (snd p)) (combine reqs (sx_list impl)) in
+  (* optionally one WebService.RemoveRoute before request [cut]: (cut root method full-path) *)
+  let mut := sx_list (sx_nth 4 c) in
+  let t_after :=
+    match mut with
+    | [_; root; m; full] =>
+        {| t_router := t_router t;
+           t_services := map (fun w =>
+               if str_eqb (s_root w) (sx_str root)
+               then {| s_root := s_root w;
+                       s_routes := filter (fun r => negb (str_eqb (r_method r) (sx_str m) && str_eqb (route_path w r) (sx_str full)))
+                                          (s_routes w) |}
+               else w) (t_services t) |}
+    | _ => t
+    end in
+  let cut := match mut with c0 :: _ => Z.to_nat (sx_int c0) | [] => List.length reqs end in
+  let table_at (k : nat) := if Nat.leb cut k then t_after else t in
+  let res := map (fun kp => run_cors_one O cfg (table_at (fst kp)) (fst (snd kp)) (snd (snd kp)))
+                 (combine (seq 0 (List.length reqs)) (combine reqs (sx_list impl))) in
   let obs := map (fun x => fst (fst (fst x))) res in
   let vs := match res with
             | [] => []
@@ -89,6 +106,7 @@ Definition run_cors (c impl : sexp) : sexp :=
   let cls := match rev res with x :: _ => snd (fst x) | [] => "empty"%string end in
   Lst [ Lst obs; Lst vs; A (L cls);
         Lst [ verdict "sequence_longer_than_one" (Nat.ltb 1 (List.length reqs));
+              verdict "route_removed_in_between" (negb (Nat.eqb (List.length mut) 0));
               verdict "kf:K-C09-1" (existsb (fun x => snd x) res) ] ].
 
 (* ---- domain "route" (C01 C02 C03 C04 C14 C17 C18) ----
@@ -393,7 +411,13 @@ Definition run_perm (c impl : sexp) : sexp :=
               verdict "c03_order_theorem_on_implementation" (implb hyp_order same);
               verdict "c03_best_match" best_ok ];
         A (L (match xs with x :: _ => class_of x | [] => "empty"%string end));
-        Lst [ verdict "kf:K-C03-1" tie; verdict "in_scope" scope;
+        Lst [ verdict "kf:K-C03-1" tie;
+              verdict "kf:K-C03-2" (existsb (fun ot => match sx_list (sx_nth 3 (fst ot)) with
+                                                        | [idx] => match find_route (sx_int idx) (t_services (snd ot)) with
+                                                                   | Some (w, r) => negb (no_verbs (route_tpl w r))
+                                                                   | None => false end
+                                                        | _ => false end) (combine iobs tables));
+              verdict "in_scope" scope;
               verdict "hypotheses_of_C03_order" hyp_order;
               verdict "permutations_built" (Nat.ltb 1 (List.length iobs)) ] ].
 
